@@ -136,6 +136,16 @@ def run(prop, tier, seed, workers=None):
             print('VIOLATION property=%s replay=%s' % (prop, path))
             print('   part=%s %s' % (v['part'], (v.get('message') or '')[:240]))
             printed += 1
+    if new:
+        groups = {}
+        for v in new:
+            g = (v['part'], v.get('sub'), v.get('behaviour'),
+                 (v.get('message') or '')[:110])
+            groups.setdefault(g, 0)
+            groups[g] += 1
+        print('violation groups (part, sub, behaviour, message): count')
+        for g, n in sorted(groups.items(), key=lambda x: str(x[0]))[:60]:
+            print('   %5d  %s' % (n, g))
     for fid, (f, n) in sorted(known.items()):
         print('KNOWN-FINDING: property=%s %s [%s; %d explored cases show it]'
               % (prop, f['what'], fid, n))
